@@ -64,6 +64,9 @@ MIN_COUNTERS = {'moc_files_judged': 300, 'moc_after_query_judged': 100, 'moc_cel
                 'alias_modified_A': 30, 'alias_modified_B': 30, 'alias_route_union_into_empty': 10,
                 'alias_route_union_into_deeper': 8, 'alias_route_add_pixels_layers': 8,
                 'alias_route_shared_caller_set': 8, 'alias_route_pickle_copy': 8,
+                'degrade_cases': 60, 'degrade_operand_pixels_on_intermediate_levels': 300,
+                'degrade_operand_not_queried': 30, 'degrade_operand_queried_first': 30, 'degrade_via_api': 25,
+                'degrade_via_cli': 25,
                 'special_id_regions': 100, 'special_id_via_cli': 25, 'special_id_via_functions': 25,
                 'mim_saved_with_a_layer_equal_to_pixel_zero': 60,
                 'mim_saved_with_a_layer_equal_to_pixel_zero_no_query_before': 40,
@@ -795,6 +798,85 @@ def run_sequence(case, o, workdir):
     o.sample = {'depth': M, 'via': via, 'steps': log, 'a_cells': len(disk[pa_].deepest()), 'b_cells': len(disk[pb_].deepest())}
 
 
+# ---------------------------------------------------------------------------------------------- union from a deeper operand
+class Expect:
+    """the sky a file must describe, given by value"""
+
+    def __init__(self, maxdepth, deepest):
+        self.maxdepth = maxdepth
+        self.pixeldict = {maxdepth: set(deepest)}
+
+
+def run_degrade(case, o, workdir):
+    """A region of depth N produced by union from a normalised multi-level operand k >= 2 levels deeper (queried first,
+    or not), via the API and via `MIMAS -depth N +r deep.mim -o out.mim`; its exports are judged against the operand's
+    set degraded to depth N."""
+    from AegeanTools import MIMAS
+    from AegeanTools.regions import Region
+    from AegeanTools.CLI import MIMAS as cli
+    rng = rng_for(*case['seed'])
+    N, k = case['depth'], case['k']
+    D = N + k
+    anchor = (float(rng.uniform(0.2, 6.0)), float(np.arcsin(rng.uniform(-0.8, 0.8))))
+    B = Region(maxdepth=D)
+    # wide in units of the receiver's cells, so the normal form of B has pixels on the levels between N and D
+    rad = float(rng.uniform(2.0, 5.0) * c08._resol(N))
+    B.add_circles(anchor[0], anchor[1], rad)
+    lvB, _ = snapshot(B)
+    want = hs.change_depth(hs.expand(lvB, D), D, N)
+    inter = sum(len(x) for d, x in lvB.items() if N < d < D)
+    o.count('degrade_cases')
+    o.count('degrade_operand_pixels_on_intermediate_levels', inter)
+    if case['query_first']:
+        B.sky_within(0.3, 0.2)
+        o.count('degrade_operand_queried_first')
+    else:
+        o.count('degrade_operand_not_queried')
+    ex = Exporter(o, workdir, {'degrade': [D, N], 'via': case['via'], 'query_first': case['query_first'],
+                               'operand_stored': dict((d, len(x)) for d, x in lvB.items() if x)})
+    exp = Expect(N, want)
+    if case['via'] == 'api':
+        A = Region(maxdepth=N)
+        ok, _ = ex.subject(A, 'degrade:union', A.union, B)
+        if not ok:
+            return
+        ex.moc(A, 'degrade:api:write_fits', expect=exp)
+        ex.reg(A, 'degrade:api:write_reg')
+        lv, fr = snapshot(A)
+        if fr or hs.expand(lv, N) != want:
+            ex.violate('union_from_deeper_vs_model', {'n_region': None if fr else len(hs.expand(lv, N)),
+                                                      'n_expected': len(want)}, A, 'degrade:api')
+        path = ex.mim(A, 'degrade:api:save')
+        if path:
+            ex.moc(A, 'degrade:api:mim2fits', writer=lambda out: MIMAS.mim2fits(path, out), expect=exp)
+    else:
+        deep = os.path.join(workdir, 'deep.mim')
+        outm = os.path.join(workdir, 'out.mim')
+        B.save(deep)
+
+        def cli_main(args):
+            buf = io.StringIO()
+            with contextlib.redirect_stdout(buf):
+                rc = cli.main(args)
+            if rc not in (0, None):
+                raise RuntimeError('MIMAS %s returned %r' % (args, rc))
+        ok, _ = ex.subject(exp, 'degrade:cli:+r', cli_main, ['-depth', str(N), '+r', deep, '-o', outm])
+        if not ok:
+            return
+        ex.moc(exp, 'degrade:cli:--mim2fits', writer=lambda out: cli_main(['--mim2fits', outm, out]))
+        ok, A = ex.subject(exp, 'degrade:cli:load', Region.load, outm)
+        if ok:
+            lv, fr = snapshot(A)
+            if fr or A.maxdepth != N or hs.expand(lv, N) != want:
+                ex.violate('union_from_deeper_vs_model', {'n_region': None if fr else len(hs.expand(lv, A.maxdepth)),
+                                                          'n_expected': len(want), 'maxdepth': A.maxdepth}, A, 'degrade:cli')
+            ex.reg(A, 'degrade:cli:write_reg')
+    o.count('degrade_via_' + case['via'])
+    o.n_nontrivial += 1
+    o.sample = {'receiver_depth': N, 'operand_depth': D, 'via': case['via'], 'query_first': case['query_first'],
+                'operand_stored': dict((d, len(x)) for d, x in lvB.items() if x), 'expected_cells': len(want)}
+
+
 # ---------------------------------------------------------------------------------------------- near-extreme regions
 EXTREME_ROUTES = ('complement_norenorm', 'complement_renorm', 'whole_without', 'few_only', 'few_by_intersect',
                   'overlap_sum_full')
@@ -1038,6 +1120,16 @@ def run_alias(case, o, workdir):
 
 def cases(seed, tier):
     out = []
+    # a receiver of depth N united with an operand k >= 2 levels deeper
+    j = 0
+    for N in range(1, 10):
+        for k in (2, 3):
+            for rep_ in range(2 if tier == 'quick' else 8):
+                for qf in (False, True):
+                    out.append({'kind': 'degrade', 'depth': N, 'k': k, 'query_first': qf, 'via': ('api', 'cli')[j % 2],
+                                'seed': [0 if rep_ < 2 else seed, 'degrade', N, k, rep_, qf]})
+                    j += 1
+                j += 1
     # near-extreme regions at every depth
     k_of = {0: 1, 1: 3}
     for M in range(1, 13):
@@ -1165,6 +1257,8 @@ def run(case):
             run_sequence(case, o, workdir)
         elif case['kind'] == 'extreme':
             run_extreme(case, o, workdir)
+        elif case['kind'] == 'degrade':
+            run_degrade(case, o, workdir)
         elif case['kind'] == 'alias':
             run_alias(case, o, workdir)
         else:
